@@ -130,9 +130,13 @@ def load_all_ways(text, fail):
     from mofun import Atoms
     import pathlib
     res = {}
-    d = tempfile.mkdtemp(prefix="vmon-c16-")
+    from vmon.oracle.util import worker_dir
+    d = None
     try:
-        p = os.path.join(d, "m.cml")
+        # the same path from case to case, each time with other content
+        p = os.path.join(worker_dir(), "m.cml")
+        from vmon.oracle.util import prime_path
+        prime_path(p)
         with open(p, "w") as f:
             f.write(text)
         ways = {
@@ -152,7 +156,7 @@ def load_all_ways(text, fail):
                     raise
                 fail("%s raised %s: %s" % (how, type(e).__name__, str(e)[:160]))
     finally:
-        shutil.rmtree(d, ignore_errors=True)
+        pass
     return res
 
 
